@@ -9,10 +9,12 @@ mkdir -p $work/verif
 (cd /verif && cp -r pyvc contracts spec replay bounded tools check known_findings.json \
    expected_obligations.json properties.jsonl $work/verif/)
 mkdir -p $work/verif/evidence $work/verif/replays
+# snapshot of /repo as it is now: later commits to /repo do not disturb a running sweep
+mkdir -p $work/base; cp -r /repo/file_builder $work/base/
 fail=0
 for d in /verif/seeded/${pre}*/; do
   sid=$(basename $d); pid=${sid%%-*}
-  rm -rf $work/repo; mkdir -p $work/repo; cp -r /repo/file_builder $work/repo/
+  rm -rf $work/repo; mkdir -p $work/repo; cp -r $work/base/file_builder $work/repo/
   (cd $work/repo && patch -p1 -s < $d/patch.diff) || { echo "$sid APPLY-FAILED"; fail=1; continue; }
   out=$(cd $work/verif && PYVC_REPO=$work/repo timeout 1800 ./check $pid 2>&1); rc=$?
   v=$(echo "$out" | grep -E "^VIOLATION" | head -1 | sed 's/.*obligation=//' | cut -c1-110)
